@@ -131,7 +131,7 @@ fn keygen(w: &mut World, op: &Value) -> R<Value> {
     let case = fnv(&[b"keygen", op.to_string().as_bytes()]);
     if imp == "ref" {
         let d = script
-            .cands
+            .stream()
             .iter()
             .map(|c| BigUint::from_bytes_be(c))
             .find(|k| !k.is_zero() && k < &(n() - 1u32))
@@ -215,7 +215,7 @@ fn sign(w: &mut World, op: &Value) -> R<Value> {
     let case = fnv(&[b"sign", &d, &idb, &msg, op.get("rng").map(|v| v.to_string()).unwrap_or_default().as_bytes()]);
     if imp == "ref" {
         let sig = rsm2::with_curve(|c| {
-            script.cands.iter().find_map(|k| rsm2::sign_with_k(c, &dn, &idb, &msg, &BigUint::from_bytes_be(k)))
+            script.stream().iter().find_map(|k| rsm2::sign_with_k(c, &dn, &idb, &msg, &BigUint::from_bytes_be(k)))
         })
         .ok_or("ref sign: no usable candidate")?;
         w.put(&out_slot, sig.to_vec());
@@ -398,7 +398,7 @@ fn encrypt(w: &mut World, op: &Value) -> R<Value> {
     let case = fnv(&[b"encrypt", &pkb, &msg, gs(op, "order")?.as_bytes(), &[comp as u8, asn1 as u8], op.get("rng").map(|v| v.to_string()).unwrap_or_default().as_bytes()]);
     if imp == "ref" {
         let ct = rsm2::with_curve(|c| {
-            script.cands.iter().find_map(|k| rsm2::encrypt_with_k(c, &refpk, &msg, &BigUint::from_bytes_be(k), order, comp))
+            script.stream().iter().find_map(|k| rsm2::encrypt_with_k(c, &refpk, &msg, &BigUint::from_bytes_be(k), order, comp))
         })
         .ok_or("ref encrypt: no usable candidate")?;
         let ct = if asn1 { crate::refmodel::der::sm2_cipher_to_der(&ct, order, comp).ok_or("ref asn1")? } else { ct };
@@ -641,7 +641,7 @@ fn take_kex(w: &mut World, obj: &str) -> R<KexObj> {
 }
 
 fn first_usable_r(script: &RngScript) -> Option<BigUint> {
-    script.cands.iter().map(|c| BigUint::from_bytes_be(c)).find(|k| in_range(k))
+    script.stream().iter().map(|c| BigUint::from_bytes_be(c)).find(|k| in_range(k))
 }
 
 fn find_r_for_point(log: &RngLog, wire: &[u8]) -> Option<BigUint> {
